@@ -409,6 +409,19 @@ func (fr *frame) prepareCall(c *ssa.CallCommon, instr ssa.Instruction) (Value, [
 		fn = v
 	} else {
 		recv := v.(Iface)
+		if strings.Contains(c.Value.Type().String(), "go-logging") {
+			// logging is a no-op (also with a nil logger)
+			sig := c.Signature()
+			return &Native{name: "log", fn: func(e *Exec, _ []Value) Value {
+				switch sig.Results().Len() {
+				case 0:
+					return nil
+				case 1:
+					return e.zero(sig.Results().At(0).Type())
+				}
+				return e.zero(sig.Results())
+			}}, nil
+		}
 		if recv.t == nil {
 			fr.throw("nil pointer dereference (method call on nil interface)", instr)
 		}
